@@ -207,17 +207,17 @@ Proof. exact (k_npd_is_model T O u11 u22 u33 u23 u13 u12 a b c al be ga). Qed.
 Print Assumptions C12_k_npd_is_model.
 
 Theorem C12_npd_aniso_correct u11 u22 u33 u23 u13 u12 a b c al be ga : valid_cell a b c al be ga ->
-  (u22 <> 0 \/ u33 <> 0 \/ u23 <> 0 \/ u13 <> 0 \/ u12 <> 0) ->
+  (u33 <> 0 \/ u23 <> 0 \/ u13 <> 0 \/ u12 <> 0) ->
   (k_npd ROps u11 u22 u33 u23 u13 u12 a b c al be ga = 0 <-> pos_def u11 u22 u33 u23 u13 u12) /\
   (k_npd ROps u11 u22 u33 u23 u13 u12 a b c al be ga = 1 <-> ~ pos_def u11 u22 u33 u23 u13 u12).
 Proof. exact (npd_aniso_correct u11 u22 u33 u23 u13 u12 a b c al be ga). Qed.
 Print Assumptions C12_npd_aniso_correct.
 
-Theorem C12_npd_iso_correct u11 a b c al be ga :
-  (0 < u11 -> k_npd ROps u11 0 0 0 0 0 a b c al be ga = 0) /\
-  (-1 / 2 < u11 <= 0 -> k_npd ROps u11 0 0 0 0 0 a b c al be ga = 1) /\
-  (u11 <= -1 / 2 -> k_npd ROps u11 0 0 0 0 0 a b c al be ga = 0).
-Proof. exact (npd_iso_correct u11 a b c al be ga). Qed.
+Theorem C12_npd_iso_correct u11 h a b c al be ga :
+  (0 < u11 -> k_npd ROps u11 h 0 0 0 0 a b c al be ga = 0) /\
+  (-1 / 2 < u11 <= 0 -> k_npd ROps u11 h 0 0 0 0 a b c al be ga = 1) /\
+  (u11 <= -1 / 2 -> k_npd ROps u11 h 0 0 0 0 a b c al be ga = 0).
+Proof. exact (npd_iso_correct u11 h a b c al be ga). Qed.
 Print Assumptions C12_npd_iso_correct.
 
 Theorem C12_npd_example_pd : pos_def 1 1 1 0 0 0.
